@@ -61,12 +61,15 @@ def explore(res, scale=1, seed=None):
         "blocks of 0..257 rows over 1-6 columns drawn from the column catalogue, empty blocks, Progress, Profile, TableColumns, "
         "Log and ProfileEvents blocks interleaved, then EndOfStream / an exception chain of depth 1-15 / nothing, sometimes "
         "followed by packets that must not be delivered) x revision (18 representatives around every gate) x compression "
-        "(off, LZ4, ZSTD, None; blocks cut into 1-4 frames) x presence and failure point of each of the 7 callbacks x result "
+        "(off, LZ4, ZSTD, None; every compressed Data/Totals block cut into 1-4 frames at points that are uniform or aimed at the "
+        "inside of the block header, a column header, an Array/Map offsets array, a string or a string's length prefix; "
+        "payload-less frames in front and in between; now and then a method of its own - LZ4, LZ4HC, ZSTD, None - per frame) x presence and failure point of each of the 7 callbacks x result "
         "binding (typed columns, some pre-filled with stale rows or with names to infer; Results.Auto; empty Results; nil) x "
         "read chunking; 30% of the cases are malformed (cut, bit flip, stray byte after a packet code, foreign packet code, "
         "packet kinds swapped, altered compressed frame, deleted / inserted / duplicated bytes, schema that does not fit the "
         "bound columns). `recv` lines compare the implementation with the model on the very bytes the server sent; `enc` lines "
-        "compare the model's server encoder with proto's encoders. The direct oracle (well-formed scripts) compares what the "
+        "compare the model's server encoder with proto's encoders, `encf` lines the model's framed server (encode_packets_fr: "
+        "the cut points and frame methods of the case) with the bytes proto's encoders and compress.Writer produced. The direct oracle (well-formed scripts) compares what the "
         "callbacks saw and what Do returned with what the script prescribes. A case is non-trivial when the implementation "
         "produced a callback trace for it (counted per distinct case line)")
     res.extra["trusted_base"] = [
@@ -75,9 +78,12 @@ def explore(res, scale=1, seed=None):
         "-> column shape, C19's subject); ColumnType.Conflicts is the executable model of model/TypeStr.v",
     ]
     res.assumptions = [
-        "codec_rt (decompress after compress is the identity) and a well-behaved hash are premises of the compressed half of the "
-        "theorems; the theorems cover one frame per compressed block (what compress.Writer / ch-go's own encodeBlock emit), "
-        "blocks cut into several frames are covered by the correspondence runs only",
+        "codec_rt (decompress after compress is the identity) is a premise of the compressed half of the theorems; the "
+        "..._frames theorems cover every framing of every compressed block (any number of admissible frames, any cut points, "
+        "payload-less frames except the last, a method per frame) for blocks below the model's allocation budget (~25 GB); "
+        "a payload-less LAST frame is excluded: the decoder never asks for it and it would be read as the next packet",
+        "Log and ProfileEvents packets are not Compressible() in the library (nor compressed by a server): they never go "
+        "through the decompressing reader, so framing applies to Data and Totals blocks only",
         "a bound column's own Infer(type string) is the identity on the type string the column reports, and ColumnType.Conflicts "
         "is irreflexive (premises accept_ok / conflicts_refl of the theorems; C18/C19 are about them)",
         "the reader is a flat byte stream: read timeouts (the `continue` of the receive loop), context cancellation and the "
